@@ -327,10 +327,77 @@ def candidates(decl, rng):
 def plan(tier, seed):
     n = 400 if tier == 'quick' else 3000
     shards = 16 if tier == 'quick' else 48
-    return [{'kind': 'decls', 'n': n // shards, 'dshard': s} for s in range(shards)]
+    return [{'kind': 'decls', 'n': n // shards, 'dshard': s} for s in range(shards)] + [{'kind': 'governing', 'dshard': 0}]
+
+
+# ---------------------------------------------------------------------------------------------
+# The attribute set that applies is the one of the *governing* type (xsi:type), exhaustive small catalogue
+GOV_XSD = f'''<xs:schema xmlns:xs="{XS}" targetNamespace="{T}" xmlns:t="{T}" elementFormDefault="qualified">
+  <xs:complexType name="Base"><xs:attribute name="a" type="xs:int"/></xs:complexType>
+  <xs:complexType name="Der"><xs:complexContent><xs:extension base="t:Base"><xs:attribute name="b" type="xs:int" use="required"/></xs:extension></xs:complexContent></xs:complexType>
+  <xs:complexType name="DerR"><xs:complexContent><xs:restriction base="t:Base"><xs:attribute name="a" type="xs:int" use="prohibited"/></xs:restriction></xs:complexContent></xs:complexType>
+  <xs:complexType name="SC"><xs:simpleContent><xs:extension base="xs:int"><xs:attribute name="u" type="xs:string"/></xs:extension></xs:simpleContent></xs:complexType>
+  <xs:element name="r"><xs:complexType><xs:choice maxOccurs="unbounded">
+    <xs:element name="e_base" type="t:Base"/><xs:element name="e_any" type="xs:anyType"/><xs:element name="e_none"/>
+    <xs:element name="e_int" type="xs:int"/><xs:element name="e_sc" type="t:SC"/>
+  </xs:choice></xs:complexType></xs:element>
+</xs:schema>'''
+# governing type -> (allowed attribute names or None for "any", required names, content text)
+GOV_TYPES = {'t:Base': ({'a'}, set(), ''), 't:Der': ({'a', 'b'}, {'b'}, ''), 't:DerR': (set(), set(), ''), 't:SC': ({'u'}, set(), '3'),
+             'xs:int': (set(), set(), '3'), 'xs:anyType': (None, set(), ''), 'xs:string': (set(), set(), 'x')}
+GOV_ELEMENTS = {'e_base': ('t:Base', ('t:Der', 't:DerR')), 'e_any': ('xs:anyType', ('xs:int', 't:SC', 't:Base', 't:Der', 'xs:string')),
+                'e_none': ('xs:anyType', ('xs:int', 't:SC', 't:Base', 't:Der', 'xs:string')), 'e_int': ('xs:int', ()), 'e_sc': ('t:SC', ())}
+GOV_ATTRS = (('a', '1'), ('b', '2'), ('u', 'x'), ('zz', '1'))
+
+
+def run_governing(spec, res):
+    xmlschema = env.activate_repo()
+    from lxml import etree
+    arb = etree.XMLSchema(etree.fromstring(GOV_XSD.encode()))
+    for version, cls in (('1.0', xmlschema.XMLSchema10), ('1.1', xmlschema.XMLSchema11)):
+        schema = cls(GOV_XSD)
+        for ename, (decl, subs) in GOV_ELEMENTS.items():
+            for xt in (None,) + subs:
+                gov = xt or decl
+                allowed, required, text = GOV_TYPES[gov]
+                for r in range(len(GOV_ATTRS) + 1):
+                    for subset in itertools.combinations(GOV_ATTRS, r):
+                        names = {n for n, _ in subset}
+                        want = required <= names and (allowed is None or names <= allowed)
+                        attrs = ''.join(f' {n}="{v}"' for n, v in subset) + (f' xsi:type="{xt}"' if xt else '')
+                        doc = f'<t:r xmlns:t="{T}" xmlns:xs="{XS}" xmlns:xsi="{XSI}"><t:{ename}{attrs}>{text}</t:{ename}></t:r>'
+                        res.evaluations += 1
+                        res.count('governing:cases')
+                        if xt:
+                            res.nontrivial.add(env.h8(('gov', version, ename, xt, tuple(sorted(names)))))
+                        got = schema.is_valid(doc)
+                        if got == want:
+                            res.count('verdict:agree')
+                            if want:
+                                data = schema.decode(doc)
+                                e = data.get(f't:{ename}')
+                                e = e[0] if isinstance(e, list) else e
+                                keys = {k[1:] for k in e if k.startswith('@') and not k.startswith(('@xsi:', '@xmlns'))} if isinstance(e, dict) else set()
+                                if keys != names:
+                                    res.violation('governing-type:decoded-attribute-keys-differ', {'schema': GOV_XSD, 'doc': doc, 'version': version},
+                                                  f'{version}: <{ename} xsi:type={xt}> attributes {sorted(names)} decoded as {sorted(keys)}')
+                                else:
+                                    res.count('data:agree')
+                            continue
+                        arb_valid = bool(arb.validate(etree.fromstring(doc.encode())))
+                        if version == '1.0' and arb_valid == got:
+                            res.count('disputed_by_arbiter')
+                            res.inconclusive_case('arbiter sides with library', [ename, xt, sorted(names)])
+                            continue
+                        res.violation(f'governing-type:{"false-accept" if got else "false-reject"}:{"declared" if not xt else "xsi-type-" + ("simple" if gov.startswith("xs:") else "complex")}',
+                                      {'schema': GOV_XSD, 'doc': doc, 'version': version},
+                                      f'{version}: <{ename} xsi:type={xt}> with attributes {sorted(names)}: library valid={got}, governing type {gov} '
+                                      f'allows {sorted(allowed) if allowed is not None else "any"} requires {sorted(required)}; libxml2={arb_valid}')
 
 
 def run_shard(spec, res):
+    if spec.get('kind') == 'governing':
+        return run_governing(spec, res)
     xmlschema = env.activate_repo()
     from lxml import etree
     rng = env.rng_for(PROPERTY, spec['tier'], spec['seed'], spec['dshard'])
